@@ -11,9 +11,28 @@ fn needs_grow_fact() {
     let grow = CaoHashMap::<u32, u32>::needs_grow(count, capacity);
     if !grow {
         assert!(count < capacity || count == 0);
+    } else {
+        // growth is asked for only when at least half of the buckets would be used
+        assert!(count >= capacity / 2);
     }
     kani::cover!(!grow && count > 0, "no-growth case reachable");
     kani::cover!(grow, "growth case reachable");
+}
+
+/// contracts of the two std functions the deserialisers' capacity computation uses (Verus stubs `is_power_of_two`,
+/// `next_power_of_two` of the serde units): loop-free over all usize
+#[kani::proof]
+fn pow2_facts() {
+    let x: usize = kani::any();
+    assert!(x.is_power_of_two() == (x != 0 && (x & x.wrapping_sub(1)) == 0));
+    if x <= 1usize << 63 {
+        let r = x.next_power_of_two();
+        assert!(r.is_power_of_two() && r >= x);
+        let p: usize = kani::any();
+        kani::assume(p.is_power_of_two() && p >= x);
+        assert!(r <= p);
+    }
+    kani::cover!(x > (1usize << 62) && x <= (1usize << 63), "largest admissible argument reachable");
 }
 
 /// the crate's `hash` never returns the reserved value 0 (loops over the key's bytes: bounded by
